@@ -31,6 +31,16 @@ pub fn run_fault_free(id: &'static str, plan: &ClientPlan, want_trace: bool) -> 
             out.violations.push(v);
         }
     }
+    // nothing went wrong in this run - no fault, every packet within 10 s of the previous one, business-level
+    // result codes only: a client that nevertheless abandoned a connection gave an exchange up that was
+    // running normally (and, as a rule, repeated it) - whatever the property, its premise "the terminal
+    // completed / reported ..." can then no longer be observed
+    if !faulty && plan.pt.registration_currency.is_none() && run.conns.len() > 1 {
+        let odd_abort = run.pt.lock().unwrap().requests.iter().any(|r| r.abort_sent.map(|c| !crate::c09::business_abort(c)).unwrap_or(false));
+        if !odd_abort && !run.ops.iter().any(|o| matches!(o.result, client::OpResult::Panic { .. } | client::OpResult::Hang)) {
+            out.fail("gave_up_without_a_fault", "fault_free", format!("{} connections were opened in a run without any fault (slowest packet: {} ms after the previous one)", run.conns.len(), plan.pt.pace_ms as u64 + plan.max_delay_ms as u64));
+        }
+    }
     out.states = j.states;
     out.stats = j.stats;
     run.add_stats(&mut out.stats);
